@@ -36,7 +36,18 @@ package btp
 //@   trusted
 //@   pure
 //@   ensures err == nil ==> d != nil && digest_src(d) == seq(bytes) && digest_hash(d) == sha3(seq(bytes))
+// (the body is checked, opt verify-body, for the validation it adds: every network digest the
+// decoder walks past has been asked for its network id and answered a non-negative one - a
+// negative id would crash the node later in NetworkSectionFilter; defect D14, fixed)
 //@ func NewDigestFromHashAndBytes(hash, bytes) (d, err)
 //@   trusted
 //@   pure
+//@   opt verify-body
+//@   arith int
+//@   nosafety
+//@   noframe
+//@   opt no-callee-pre
+//@   loop 0: invariant true
+//@   loop 1: invariant true
+//@   loop 1: step ghost(nid_of) == nd && ghost(nid_q) >= 0
 //@   ensures err == nil ==> d != nil && digest_src(d) == seq(bytes) && digest_hash(d) == seq(hash)
